@@ -130,15 +130,15 @@ def fixsigns_alone(E, shape, R):
                 E.eq(abs(K.factor_matrices[n][i, r]), absf[n][r][i], "only signs change")
 
 
-REFS = {
-    "pp": [[1.0, 2.0], [3.0, 1.0], [2.0, 1.0]],
-    "np": [[-1.0, 2.0], [3.0, -1.0], [-2.0, 1.0]],
-    "nn": [[-1.0, -2.0], [-3.0, -1.0], [-2.0, -1.0]],
+REFS = {  # columns with integer 2-norms, so that normalising the reference stays rational
+    "pp": [[3.0, 4.0], [4.0, 3.0], [5.0, 12.0]],
+    "np": [[-3.0, 4.0], [4.0, -3.0], [-5.0, 12.0]],
+    "nn": [[-3.0, -4.0], [-4.0, -3.0], [-5.0, -12.0]],
     "zp": [[0.0, 2.0], [3.0, 0.0], [0.0, 1.0]],
 }
 
 
-@ob("C08", params=[dict(shape=(2, 2), R=1, ref=r) for r in REFS] + [dict(shape=(2, 2, 2), R=1, ref=r, _tier="thorough") for r in REFS],
+@ob("C08", params=[dict(shape=(2, 2), R=1, ref=r) for r in REFS] + [dict(shape=(2, 2, 2), R=1, ref=r, _tier="thorough") for r in REFS], gating=True,
     max_paths=60000, wall_s=900,
     bounds="fixsigns(other): receiver symbolic (rank 1), reference tensor concrete from a catalogue of 4 sign patterns (a symbolic reference makes the sign conditions bilinear: z3 unknown)")
 def fixsigns_reference(E, shape, R, ref):
@@ -208,3 +208,19 @@ def redistribute_extract_roundtrips(E, shape, R):
     E.eq(O.den(K), before, "operands unchanged")
     C = K.copy()
     E.eq(O.den(C), before, "copy")
+
+
+@ob("C08", params=[dict(signs=sg) for sg in ("+++", "-++", "+-+", "--+", "-+-", "---")], max_paths=20000, wall_s=600,
+    bounds="3-way rank-1 receiver whose factor columns are sign * (positive symbols) for every enumerated sign pattern of the modes (incl. all modes anti-aligned), reference with positive columns of integer norm")
+def fixsigns_reference_3way(E, signs):
+    """odd order: fixsigns(other) still flips modes in pairs, whatever number of modes is anti-aligned"""
+    shape = (2, 2, 2)
+    fs = []
+    for n in range(3):
+        col = E.reals(f"kU{n}_", (2, 1), positive=True)
+        fs.append(col * (1.0 if signs[n] == "+" else -1.0))
+    K = ttb.ktensor(fs, E.reals("kw", (1,), positive=True), copy=False)
+    B = ttb.ktensor([E.const(np.array(REFS["pp"][n]).reshape(2, 1)) for n in range(3)], E.const(np.array([2.0])))
+    before = O.den(K)
+    K.fixsigns(B)
+    E.eq(O.den(K), before, "array unchanged by fixsigns(other) on a 3-way tensor")
